@@ -15,7 +15,10 @@ CHECKS = {
        '(n <= 3 quick / 4 thorough messages with unbounded symbolic UIDs, pending hidden expunges, arbitrary '
        'update set, k new messages, hide_expunged on/off, add_updates and set_messages paths): a shadow client '
        'applying the untagged responses ends with exactly the server list, EXPUNGE numbers in range, EXISTS never '
-       'shrinking, no EXPUNGE while hidden, and the representation invariant re-established, proved per path by z3.',
+       'shrinking, no EXPUNGE while hidden, and the representation invariant re-established, proved per path by z3. Session level: '
+       'two-session histories through do_command with shadow clients, and a client idling on the real connection loop (scripted transport) '
+       'while a second session changes the mailbox before IDLE, in bursts while idling, and in the same scheduling window as DONE; the '
+       'shadow client is built from the bytes received.',
   note=TRUST + 'Assumes A-UID (new UIDs exceed all previously reported ones; C04). Interleavings are represented by '
        'their effect between two forks. Outside: maildir scans, views above the bound.',
   technique='symbolic execution of the real Python code with z3; inductive step over symbolic UIDs'),
@@ -97,7 +100,9 @@ CHECKS = {
        'remove_folder, rename_folder, list_folders) with every character of the mailbox name(s) symbolic (all names up to 7 quick / 10 '
        'thorough characters incl. INBOX plus delimiter, empty, ".", "..", "/", doubled delimiters, NUL; RENAME with two symbolic names) against a recording stub '
        'file system whose answers are forks: every path passed to a file-system call, normalised lexically, stays inside the user root, '
-       'and removal/rename/creation targets are strictly inside it.',
+       'and removal/rename/creation targets are strictly inside it. The same for all Unicode names of <= 2 (quick) / 3 (thorough) code '
+       'points, with unicodedata.normalize modelled by the classes of normal forms that contain path syntax (tables computed from the '
+       'interpreter at run time).',
   note=TRUST + 'os/os.path/open/Maildir are stubs; os.path.join is a sym-aware port of posixpath.join. Lexical confinement only '
        '(no symlinks). Outside: the real file system; the dict half (one MailboxSet per identity, structural).',
   technique='symbolic execution of the real path-construction code with z3, recording stub file system, lexical confinement oracle'),
@@ -157,7 +162,10 @@ CHECKS = {
        'complete with OK stores none, NO/BAD changes nothing. Two genuine defects are recorded as known findings (MOVE cancellation window, '
        'MULTIAPPEND partial) and reported as KNOWN-FINDING; any other violation is a VIOLATION.',
   note=TRUST + 'Lock acquisition is the only suspension point of the dict backend; the lock stub over-approximates contention. Outside: '
-       'process kill and maildir (C15), two commands interleaving inside the window.',
+       'process kill and maildir (C15), more than 3 commands interleaving. Also: 2-3 real storage coroutines really interleaving on an '
+       'exclusion-preserving lock stub (conservation oracle), and the byte stream of MULTIAPPEND ({n} and {n+}), UID EXPUNGE, MOVE and STORE '
+       'cut at every position (solver-drawn index, symbolic literal bytes) followed by end of stream on the real connection loop: an '
+       'incomplete command leaves the mailboxes unchanged.',
   technique='symbolic fault schedule (suspend/cancel Booleans) explored with z3 over the real code'),
  'C16': dict(
   text='Assume/guarantee decomposition on the real code: (1) dict MailboxData.update_selected(wait_on) started on a real asyncio loop from '
@@ -186,7 +194,10 @@ CHECKS = {
        'after a real AUTHENTICATE PLAIN: before authentication every script command answers NO and no user\'s filter set changes, after it '
        'only the authenticated user\'s set changes; (b) the real FilterState.run/_do_* on the dict FilterSet from an arbitrary map state '
        '(<= 2 stored scripts with symbolic names and bytes, symbolic active choice): one and two commands with symbolic operands agree '
-       'with a dict + optional-active-name model in response code, returned bytes/listing and post-state; another user\'s set is untouched.',
+       'with a dict + optional-active-name model in response code, returned bytes/listing and post-state; another user\'s set is untouched; '
+       '(c) histories of <= 3 (quick) / 4 (thorough) operations on one real ManageSieve connection, including a second connection of the same '
+       'user logging in meanwhile and re-login, from an empty or non-empty store: a fresh connection lists and gets exactly what a plain map '
+       'says.',
   note=TRUST + 'Names are compared only for equality (1 symbolic character each). Outside: CHECKSCRIPT/sieve compiler, STARTTLS, other backends.',
   technique='symbolic execution of the real ManageSieve code with z3 against a map model (inductive step from an arbitrary map state)'),
  'C18': dict(
